@@ -22,11 +22,12 @@ type Op struct {
 
 // Container keys under the document root.
 const (
-	KObj  = "o"
-	KArr  = "a"
-	KText = "t"
-	KCnt  = "n"
-	KTree = "tr"
+	KObj   = "o"
+	KArr   = "a"
+	KText  = "t"
+	KCnt   = "n"
+	KDedup = "u" // a dedup counter (HyperLogLog of distinct actors)
+	KTree  = "tr"
 )
 
 // Guards switches the known-finding trigger guards on: an operation that would
@@ -87,6 +88,8 @@ func SetupRoot(d *document.Document, kinds []string) error {
 				r.SetNewText(KText)
 			case KCnt:
 				r.SetNewCounter(KCnt, 0)
+			case KDedup:
+				r.SetNewDedupCounter(KDedup)
 			case KTree:
 				r.SetNewTree(KTree, json.TreeNode{Type: "doc", Children: []json.TreeNode{
 					{Type: "p", Children: []json.TreeNode{{Type: "text", Value: "ab"}}},
@@ -301,10 +304,8 @@ func ApplyOp(d *document.Document, op Op, valBase int, fail string) (res Resolve
 			// (a Go string cannot hold the resulting lone surrogate)
 			from, to = noSplit(us, from), noSplit(us, to)
 			s := textTokens[mod(op.V, len(textTokens))]
-			if s == "" && from == to {
-				skip = true
-				return nil
-			}
+			// (s == "" && from == to is an edit that inserts and removes nothing: the API accepts it,
+			// it occupies a clientSeq and a history entry, and its undo is a no-op)
 			t.Edit(from, to, s)
 			res.Args["from"], res.Args["to"], res.Args["s"] = from, to, s
 			res.Args["units"] = units(s)
@@ -326,6 +327,15 @@ func ApplyOp(d *document.Document, op Op, valBase int, fail string) (res Resolve
 			v := fmt.Sprintf("%d", mod(op.V, 3))
 			t.Style(from, to, map[string]string{"b": v})
 			res.Args["from"], res.Args["to"], res.Args["val"] = from, to, v
+		case "dup.add":
+			c := r.GetCounter(KDedup)
+			if c == nil {
+				skip = true
+				return nil
+			}
+			a := fmt.Sprintf("visitor-%d", mod(op.V, 5))
+			c.Add(a)
+			res.Args["actor"] = a
 		case "cnt.inc":
 			c := r.GetCounter(KCnt)
 			if c == nil {
